@@ -54,7 +54,7 @@ func validateJSONPatches(patches []byte) error {
 
 	for _, p := range jsonPatches {
 		pathMsg, ok := p["path"]
-		if !ok {
+		if !ok || pathMsg == nil {
 			return fmt.Errorf("%s: path not found", patch.JSONPatch)
 		}
 
@@ -63,13 +63,41 @@ func validateJSONPatches(patches []byte) error {
 			return fmt.Errorf("%s: invalid path", patch.JSONPatch)
 		}
 
-		if strings.HasPrefix(path, "/"+document.ServiceProperty) {
-			return fmt.Errorf("%s: cannot modify services", patch.JSONPatch)
+		if err := validateJSONPointer(path); err != nil {
+			return err
 		}
 
-		if strings.HasPrefix(path, "/"+document.PublicKeyProperty) {
-			return fmt.Errorf("%s: cannot modify public keys", patch.JSONPatch)
+		// move and copy also read from (and move removes) the 'from' location
+		fromMsg, ok := p["from"]
+		if !ok || fromMsg == nil {
+			continue
 		}
+
+		var from string
+		if err := json.Unmarshal(*fromMsg, &from); err != nil {
+			return fmt.Errorf("%s: invalid from", patch.JSONPatch)
+		}
+
+		if err := validateJSONPointer(from); err != nil {
+			return err
+		}
+	}
+
+	return nil
+}
+
+func validateJSONPointer(pointer string) error {
+	// the patch library ignores everything before the first '/' of a pointer
+	if !strings.HasPrefix(pointer, "/") {
+		return fmt.Errorf("%s: JSON pointer must start with '/'", patch.JSONPatch)
+	}
+
+	if strings.HasPrefix(pointer, "/"+document.ServiceProperty) {
+		return fmt.Errorf("%s: cannot modify services", patch.JSONPatch)
+	}
+
+	if strings.HasPrefix(pointer, "/"+document.PublicKeyProperty) {
+		return fmt.Errorf("%s: cannot modify public keys", patch.JSONPatch)
 	}
 
 	return nil
